@@ -14,8 +14,10 @@ from .common import Scenario, elems, shape, mk_array, run_property, assume_not_n
 from .c03 import _same
 from .c01 import tree_snapshot
 
-OPS = ["set_vertices", "set_values", "rename", "move", "copy", "remove_vertices", "remove_data", "add_data", "set_flags"]
-ENDINGS = ["normal exit", "exception after 0", "exception after 1", "exception after 2", "explicit close after 1", "reopened in mode r after 1"]
+OPS = ["set_vertices", "set_values", "rename", "move", "copy", "remove_vertices", "remove_data", "add_data", "set_flags", "create_deferred",
+       "hole_rename", "hole_values"]
+ENDINGS = ["normal exit", "exception after 0", "exception after 1", "exception after 2", "explicit close after 1", "reopened in mode r after 1",
+           "helper block, normal exit", "helper block, exception after 1", "helper block, exception after 2"]
 
 
 class _Abort(Exception):
@@ -46,10 +48,15 @@ class CloseAfter(Scenario):
         o = Points.create(ws0, vertices=real_np.arange(9.0).reshape(3, 3), name="O", parent=g)
         d1 = o.add_data({"D1": {"values": real_np.arange(3.0)}})
         d2 = o.add_data({"D2": {"values": real_np.array([7, 8, 9], dtype="int32"), "type": "integer"}})
+        from geoh5py.groups import DrillholeGroup
+        from geoh5py.objects import Drillhole
+        dg = DrillholeGroup.create(ws0, name="DH")
+        hole = Drillhole.create(ws0, parent=dg, name="hole", collar=[0.0, 0.0, 0.0], surveys=real_np.c_[[0.0, 10.0], [0.0, 0.0], [-90.0, -90.0]])
+        hole.add_data({"log": {"depth": real_np.array([1.0, 2.0]), "values": real_np.array([5.0, 6.0])}})
         uid = {"g": g.uid, "h": h.uid, "o": o.uid, "d1": d1.uid, "d2": d2.uid}
         ws0.close()
         h5file = ws0.h5file
-        del g, h, o, d1, d2, ws0
+        del g, h, o, d1, d2, ws0, dg, hole
         with self.engine(cx) as X:
             ops = [first, OPS[int(cx.int("op1", 0, len(OPS)))]]
             ending = ENDINGS[int(cx.int("ending", 0, len(ENDINGS)))]
@@ -92,11 +99,31 @@ class CloseAfter(Scenario):
                 elif op == "set_flags":
                     o.visible = False
                     o.public = False
+                elif op == "create_deferred":          # written at the close only
+                    ws.create_entity(ContainerGroup, save_on_creation=False, entity={"name": f"deferred group at {t}"})
+                elif op in ("hole_rename", "hole_values"):      # concatenated attributes are flushed at the close
+                    grp = [x for x in ws.groups if x.name == "DH"][0]
+                    hl = [x for x in grp.children if getattr(x, "name", "").startswith("hole")][0]
+                    if op == "hole_rename":
+                        hl.name = f"hole renamed at {t}"
+                    else:
+                        newv = [cx.real(f"s{t}h{i}") for i in range(2)]
+                        assume_not_ndv(cx, newv)
+                        hl.get_data("log")[0].values = mk_array(X, newv, (2,), "float64")
 
-            stop_after = {"exception after 0": 0, "exception after 1": 1, "exception after 2": 2}.get(ending)
+            stop_after = {"exception after 0": 0, "exception after 1": 1, "exception after 2": 2, "helper block, exception after 1": 1,
+                          "helper block, exception after 2": 2}.get(ending)
             ws = None
+            helper = ending.startswith("helper block")
             try:
-                with Workspace(h5file) as ws:
+                if helper:
+                    from geoh5py.shared.utils import fetch_active_workspace
+                    ws = Workspace(h5file)
+                    ws.close()              # the helper opens the workspace itself, in the requested mode
+                    block = fetch_active_workspace(ws, mode="r+")
+                else:
+                    block = Workspace(h5file)
+                with block as ws:
                     held["o"] = ws.get_entity(uid["o"])[0]          # a handle obtained before the close, nothing cached yet
                     state["snap"] = tree_snapshot(ws)
                     for t, op in enumerate(ops):
@@ -188,7 +215,7 @@ def main(tier, seed):
                      "it and reports the closed state"],
         outside=["process kills and power loss (out of scope in the statement)", "exceptions raised *inside* a library call (abort points are "
                  "between operations, as in the statement)", "other entity classes; longer blocks"],
-        bounds="first operation (9) x second operation (9) x ending {normal exit, exception after 0 / 1 / 2 operations, explicit close after 1, "
-               "re-opened in mode 'r' after 1}",
+        bounds="first operation (12) x second operation (12) x ending {normal exit, exception after 0 / 1 / 2 operations, explicit close after "
+               "1, re-opened in mode 'r' after 1, the same inside the fetch_active_workspace helper: normal exit, exception after 1 / 2}",
         expected_outcomes={"CloseAfter": {"ok"}},
     )
